@@ -170,7 +170,17 @@ def forest_check(prop, tier, seed):
         states, r_dump = forest_states(tier, seed, prop)
         mcs.append(r_dump)
         rnd.shuffle(states)
-        chosen = states[: ((150 if views else 400) if quick else 5200)]
+        if quick and not views:
+            # a stratified sample: the classes with two or more text nodes of which one sits inside a tree (where text
+            # consolidation has something to do: 768 of the 5 115 classes) are over-represented
+            def texty(st):
+                tx = [nd for nd in st["n"] if nd["k"] == "text"]
+                return len(tx) >= 2 and any(nd["p"] != 0 for nd in tx)
+            prio = [st for st in states if texty(st)]
+            rest = [st for st in states if not texty(st)]
+            chosen = prio[:260] + rest[:300]
+        else:
+            chosen = states[: (150 if quick else 5200)]
         # the same forests with one text node emptied: an explicitly created empty text node is a node like any other
         extra_states = []
         for st in chosen[: (120 if quick else 2000)]:
@@ -495,6 +505,12 @@ def observer_check(prop, tier, seed):
             for _ in range(2):
                 jobs.append({"st": f.state(), "what": what, "pfx": PFX, "uris": URIS, "pairs": [], "ign": IGN, "steps": rnd.choice([1, 1, 2]), "uniform": True, "names": STRUCT_OPS, "seed": rnd.randrange(1 << 30)})
                 nrand += 1
+    if prop == "C07":
+        # small declaration- and attribute-rich forests, one structure-changing call each
+        for k in range(300 if quick else 6000):
+            f, roots = gen.random_forest(rnd, rnd.choice([5, 7, 9]), shape=rnd.choice(["mixed", "fan"]), nsrich=True, trees=rnd.choice([1, 2]))
+            jobs.append({"st": f.state(), "what": what, "pfx": PFX, "uris": URIS, "pairs": [], "ign": IGN, "steps": 1, "uniform": True, "names": STRUCT_OPS, "seed": rnd.randrange(1 << 30)})
+            nrand += 1
     rnd.shuffle(jobs)   # balance the shards
     jp = os.path.join(d, "jobs.ndjson")
     with open(jp, "w") as fh:
@@ -648,6 +664,19 @@ def parser_jobs(prop, tier, seed):
         for rep in range(1 if quick else 6):
             add("frag", X.render_doc(fr, X.RandomChooser(rnd), "frag"), "yes", ids=[], encs=[])
             counts["enumerated"] += 1
+    # one value, one special piece: the value "u v" with its space written as SP / TAB / LF / CR / CR LF and everything else
+    # literal (or exactly one character reference next to it) - as an attribute, a prefixed declaration, a default
+    # declaration and an xml:id.  What a "nothing to decode in this value" shortcut gets to see, each case exactly once.
+    canon = X.CanonChooser(rnd, set())
+    tiny = {"before": [], "after": [], "root": {"ns": "", "ln": "a", "decls": [], "attrs": [], "kids": [{"ns": "", "ln": "b", "decls": [], "attrs": [], "kids": []}]}}
+    for sp in (X.piece("lit", 32), X.piece("lit", 9), X.piece("eol", e="lf"), X.piece("eol", e="cr"), X.piece("eol", e="crlf")):
+        for refd in (False, True):
+            for apx, aln in (("xmlns", "p"), ("", "xmlns"), ("", "k"), ("xml", "id")):
+                toks = X.render_doc(tiny, canon, "doc")
+                stag = [t for t in toks if t["k"] == "stag"][0]
+                X.add_attr(stag, apx, aln, [X.piece("hex", 117, up=False) if refd else X.piece("lit", 117), sp, X.piece("lit", 118)], q=rnd.choice([34, 39]))
+                add("doc", toks, "yes", ids=[X.cps("u v")] if aln == "id" else [], encs=[])
+                counts["enumerated"] += 1
     # code -> spec: random documents x random renderings (+ damage catalogue, + fragments)
     ndocs = 250 if quick else 12000
     for k in range(ndocs):
@@ -812,6 +841,40 @@ def rich_text(rnd, brackets=False):
     return [rnd.choice(alpha) for _ in range(rnd.randrange(1, 7))]
 
 
+def doc_to_forest(doc):
+    """an abstract document of xmlgen ({before, root, after}; elements {ns, ln, decls, attrs, kids}) as a forest of gen"""
+    import gen
+    f = gen.Forest(True)
+    top = f.add(gen.node("doc"))
+
+    def leaf(k, par):
+        if k[0] == "text":
+            f.add(gen.node("text", t=list(k[1])), par)
+        elif k[0] == "comm":
+            f.add(gen.node("comm", t=list(k[1])), par)
+        else:
+            f.add(gen.node("pi", ln=k[1], t=list(k[2] or []), d=k[2] is not None), par)
+
+    def el(e, par):
+        i = f.add(gen.node("elem", ns=e["ns"], ln=e["ln"]), par)
+        for px, uri in e["decls"]:
+            f.add(gen.node("nsn", ln=px, u=uri), i)
+        for a in e["attrs"]:
+            f.add(gen.node("attr", ns=a[0], ln=a[1], t=list(a[2])), i)
+        for k in e["kids"]:
+            if isinstance(k, dict):
+                el(k, i)
+            else:
+                leaf(k, i)
+
+    for k in doc.get("before", []):
+        leaf(k, top)
+    el(doc["root"], top)
+    for k in doc.get("after", []):
+        leaf(k, top)
+    return f
+
+
 def ser_params(rnd, prop, k):
     """serialisation parameters of job k: C01 always default; C14 every combination over time; C16 token-relevant ones"""
     if prop == "C01" or (prop == "C16" and k % 4 == 0):
@@ -930,6 +993,44 @@ def ser_check(prop, tier, seed):
             j.update(ser_params(rnd, prop, k))
             jobs.append(j)
             counts["random"] += 1
+    # the 75 "scope exit" documents of the parser checks as trees: a binding made or shadowed on an inner element and the
+    # same prefix (or the default namespace) used again behind it with its outer meaning
+    import xmlgen as X
+    for doc in X.scope_exit_docs():
+        ff = doc_to_forest(doc)
+        j = {"st": ff.state(), "root": 1, "frag": False, "what": what}
+        j.update(ser_params(rnd, prop, counts["random"]))
+        jobs.append(j)
+        counts["random"] += 1
+    # fragments whose top level mixes elements, comments and PIs with character data that is white space only (a fragment
+    # keeps it: it is content like any other) or starts / ends with white space
+    for k in range(60 if quick else 1500):
+        ff = gen.Forest(True)
+        top = ff.add(gen.node("doc"))
+        last_text = False
+        for _ in range(rnd.randrange(1, 6)):
+            r = rnd.random()
+            if r < 0.45 and not last_text:
+                ff.add(gen.node("text", t=gen.cps(rnd.choice([" ", "\n", "\t", " \n ", "\r", "  ", " x", "x ", "\n\n", "x"]))), top)
+                last_text = True
+                continue
+            last_text = False
+            if r < 0.75:
+                e = ff.add(gen.node("elem", ln=rnd.choice(gen.LNS)), top)
+                if rnd.random() < 0.4:
+                    ff.add(gen.node("text", t=gen.cps(rnd.choice([" ", "y", "\n"]))), e)
+            elif r < 0.9:
+                ff.add(gen.node("comm", t=gen.cps("c")), top)
+            else:
+                ff.add(gen.node("pi", ln="a", t=gen.cps("d"), d=True), top)
+        kids = ff.n[top - 1]["c"]
+        wf_doc = len([c for c in kids if ff.n[c - 1]["k"] == "elem"]) == 1 and not any(ff.n[c - 1]["k"] == "text" for c in kids)
+        j = {"st": ff.state(), "root": top, "frag": not wf_doc, "what": what}
+        j.update(ser_params(rnd, prop, k))
+        if j.get("decl"):
+            j["decl"] = 0
+        jobs.append(j)
+        counts["random"] += 1
     if prop in ("C14", "C16"):
         # very deep element-only nesting with indentation on: indentation is two spaces per level at ANY depth
         for depth in ((36, 70) if quick else (36, 70, 130)):
@@ -1158,6 +1259,29 @@ def html_check(prop, tier, seed):
                 other_ns = "http://www.w3.org/1999/xhtml" if nd["ns"] == "" else ""
                 cdsel = [rnd.choice([[nd["ns"], nd["ln"].swapcase()], [other_ns, nd["ln"]], [nd["ns"], nd["ln"].upper() if nd["ln"] != nd["ln"].upper() else nd["ln"].lower()]])]
         jobs.append({"st": f.state(), "root": roots[0], "indent": k % 2 == 0, "suppress": rnd.choice(sup_opts), "cdata": cdsel})
+        counts["random"] += 1
+    # an outer default namespace, a prefixed SVG / MathML / XHTML element with a declaration of its own (the serialiser writes
+    # it unprefixed under a generated default declaration) and, inside it, elements of the OUTER default namespace again:
+    # they must not be written as if the generated default applied to them
+    for k in range(80 if quick else 2000):
+        ff = gen.Forest(True)
+        outer = rnd.choice(["u1", "u2"])
+        wr = ff.add(gen.node("elem", ns=outer, ln=rnd.choice(["div", "zzz", "p"])))
+        ff.add(gen.node("nsn", ln="", u=outer), wr)
+        if rnd.random() < 0.6:
+            ff.add(gen.node("nsn", ln="o", u=outer), wr)
+        inner_ns = rnd.choice(["http://www.w3.org/2000/svg", "http://www.w3.org/1998/Math/MathML", "http://www.w3.org/1999/xhtml", "https://www.w3.org/1999/xhtml"])
+        mid = ff.add(gen.node("elem", ns=inner_ns, ln=rnd.choice(["svg", "math", "span", "g"])), wr)
+        ff.add(gen.node("nsn", ln=rnd.choice(["s", "q"]), u=inner_ns), mid)
+        if rnd.random() < 0.3:
+            ff.add(gen.node("nsn", ln="z", u="u3"), mid)
+        cur = mid
+        for _ in range(rnd.randrange(1, 4)):
+            e = ff.add(gen.node("elem", ns=rnd.choice([outer, outer, inner_ns]), ln=rnd.choice(["em", "zzz", "g", "li"])), cur)
+            if rnd.random() < 0.4:
+                cur = e
+        ff.add(gen.node("elem", ns=outer, ln="p"), wr)
+        jobs.append({"st": ff.state(), "root": 1, "indent": k % 4 == 0, "suppress": [], "cdata": []})
         counts["random"] += 1
     rnd.shuffle(jobs)
     jp = os.path.join(d, "jobs.ndjson")
